@@ -177,6 +177,8 @@ inline void install_crash_handler() {
   signal(SIGFPE, crash_handler);
   signal(SIGBUS, crash_handler);
   signal(SIGILL, crash_handler);
+  signal(SIGTERM, crash_handler);
+  signal(SIGXCPU, crash_handler);
 }
 
 inline void incomplete(const std::string &what) {
